@@ -126,7 +126,7 @@ theorem merge_at_site {f : Forest} {p : Nat} {v : Value} {l' mid r' : List HTree
   have s1 : SiteAt (f.editAt (some p) g1) p v (l' ++ a.setValue (.text (x ++ y)) :: (mid ++ b :: r')) := by
     have := s.edit g1 (by
       rw [hg1]
-      simp only [handlesList_append, handlesList_cons, setValue_handles]
+      simp only [fs_handlesList_append, handlesList_cons, setValue_handles]
       exact List.Sublist.refl _)
     rw [hg1] at this
     exact this
